@@ -68,6 +68,7 @@ fn main() {
                 (PathBuf::from(e), arg_val(&args, "--second-profile").unwrap_or_else(|| "second".into()))
             });
             let a = driver::CheckArgs {
+                second_fraction: arg_val(&args, "--second-fraction").and_then(|s| s.parse().ok()).unwrap_or(4),
                 second,
                 prop,
                 tier,
